@@ -87,6 +87,10 @@ ScaledLines == {[kind |-> "line", path |-> p, q |-> q, sh |-> k] : p \in LongPat
 (* lengths at magnitudes whose squares leave the floating-point range (2^600 squared overflows, 2^-600 squared is zero): the
    length of a path is still an ordinary number there; only the length clauses are examined for these cases *)
 HugeLines == {[kind |-> "len", path |-> p, q |-> <<10, 10>>, sh |-> k] : p \in LongPaths, k \in {-600, 600}}
-GenInit == c \in HugeLines \cup AreaCases \cup LineCases \cup NearCases \cup BufferCases \cup FarShapes \cup FarLines \cup ScaledShapes \cup ScaledLines /\ PrintT(ToJson(c))
+(* boxes (a *Bounds is a Polygonal): centre and area, at ordinary magnitudes and at the top of the floating-point range, where
+   the sum and the difference of two finite coordinates need not be finite although their mean is (area is examined at
+   ordinary magnitudes only) *)
+BoxCases == [kind : {"box"}, min : {<<-3, -1>>, <<3, 1>>, <<-5, -3>>, <<0, 0>>}, max : {<<5, 3>>}, sh : {0, -20, 24, 1021}]
+GenInit == c \in BoxCases \cup HugeLines \cup AreaCases \cup LineCases \cup NearCases \cup BufferCases \cup FarShapes \cup FarLines \cup ScaledShapes \cup ScaledLines /\ PrintT(ToJson(c))
 GenSpec == GenInit /\ [][UNCHANGED c]_c
 =============================================================================
